@@ -188,6 +188,14 @@ def tlc(spec_dir, module, cfg=None, workers=8, timeout=3600, simulate=None, dept
     m = _DEPTH.search(r.out)
     if m:
         r.depth = int(m.group(1))
+    if r.timed_out and r.distinct == 0:
+        pm = list(re.finditer(r"Progress\((\d+)\) at .*?: ([\d,]+) states generated.*?, ([\d,]+) distinct states found.*?, ([\d,]+) states left", r.out))
+        if pm:
+            g = pm[-1]
+            r.depth = int(g.group(1))
+            r.generated = int(g.group(2).replace(",", ""))
+            r.distinct = int(g.group(3).replace(",", ""))
+            r.queue = int(g.group(4).replace(",", ""))
     if simulate is not None:
         ms = list(_SIMUL.finditer(r.out))
         if ms:
@@ -198,7 +206,7 @@ def tlc(spec_dir, module, cfg=None, workers=8, timeout=3600, simulate=None, dept
         r.violated = m.group(1)
     elif "Deadlock reached" in r.out:
         r.violated = "deadlock"
-    elif "Temporal properties were violated" in r.out:
+    elif "Temporal properties were violated" in r.out or re.search(r"Temporal property \S+ was violated", r.out):
         r.violated = "temporal"
     elif "The postcondition" in r.out and "violated" in r.out or "Postcondition" in r.out and "false" in r.out.lower():
         r.violated = "postcondition"
